@@ -308,6 +308,7 @@ func neighbourOps(c *props.Ctx, cfg eng.ShapeConfig) {
 	c.R.Floor("NEIGH-3", 4)
 	c.R.Floor("NEIGH-4", 2)
 	c.R.Floor("NEIGH-5", 2)
+	c.R.Floor("NEIGH-6", 2)
 	// box crop: keep decision over the finite set of orderings
 	if fn := p.Func("modeling/meshops", "CropFloat3Attribute"); fn == nil {
 		c.R.Failf("anchor meshops.CropFloat3Attribute not found")
